@@ -3,3 +3,6 @@
 use super::*;
 pub use super::messages::verif_hooks as messages;
 pub use super::record::verif_hooks as record;
+
+// --- C30 (np_misc_h): code enums used in NTS-KE records (re-export only).
+pub use super::{AeadAlgorithm as Aead, ErrorCode as KeErrorCode, WarningCode as KeWarningCode};
